@@ -452,6 +452,20 @@ string Subprocess::communicate(
     throw runtime_error("Subprocess::communicate timed out");
   }
 
+  // The child may have written more output between our last read and its
+  // exit; it is still in the pipe
+  if (this->stdout_read_fd >= 0) {
+    for (;;) {
+      stdout_queue.emplace_back(read(this->stdout_read_fd, 4096));
+      if (stdout_queue.back().empty()) {
+        break;
+      }
+      stdout_bytes += stdout_queue.back().size();
+    }
+    close(this->stdout_read_fd);
+    this->stdout_read_fd = -1;
+  }
+
   if (stdout_queue.empty()) {
     return "";
   } else if (stdout_queue.size() == 1) {
